@@ -182,6 +182,27 @@ def run_one(args):
             if bal + res != 5000 - 45:
                 problems.append(("accounting-identity", "subscriber %s: balance %d + reserved %d != 5000 - 45" % (s, bal, res)))
                 break
+        # ---- D: many creates of different subscribers at once: whatever the order they are served in, every record
+        # opened is stamped with its own local record sequence number (in a one-at-a-time order OpenCDR hands out
+        # consecutive numbers), and the counter has advanced by exactly the number of records opened
+        dsubs = ["imsi-20893000%07d" % (idx * 100 + 70 + i) for i in range(16)]
+        for s in dsubs:
+            P.do({"op": "account", "supi": s, "rg": 1, "quota": "5000", "unitCost": "1"})
+        before = int(o.get("lrsn", 0))
+        per = 12
+        o = P.do({"op": "burst", "ms": 0, "burst": [{"op": "create", "body": body(s, 1, 0, 1, 10, cid=500 + j)} for j in range(per) for s in dsubs]})
+        bursts += 1
+        reqs += per * len(dsubs)
+        okc = sum(1 for x in o["sub"] if x["status"] == 201)
+        if okc != per * len(dsubs):
+            problems.append(("create-failed", "%d of %d concurrent creates of 16 subscribers acknowledged" % (okc, per * len(dsubs))))
+        nums = [r["lrsn"] for s in dsubs for r in ue(o, s).get("records", [])]
+        dup = sorted({n for n in nums if nums.count(n) > 1})
+        if dup or len(nums) != okc:
+            problems.append(("record-number-not-serial", "%d records opened by %d concurrent creates of 16 subscribers carry %d distinct local record sequence numbers (e.g. %r stamped twice)"
+                             % (len(nums), okc, len(set(nums)), dup[:3])))
+        elif int(o.get("lrsn", 0)) - before != okc:
+            problems.append(("record-number-not-serial", "the record counter advanced by %d for %d records opened" % (int(o.get("lrsn", 0)) - before, okc)))
     except RuntimeError as e:
         crashed = True
         problems.append(("crash", str(e)))
